@@ -1,11 +1,13 @@
 """C09 - invalidation removes exactly the results that depend on the target"""
 import json
 import os
+import re
 
 from jugverif import core, graphcheck as G, genprog, jugenv
 
 LEVEL = 'proof'
-THEOREMS = ['Jug.C09.cli_eq_spec', 'Jug.C09.aff_sound', 'Jug.C09.aff_complete', 'Jug.C09.shell_union_eq_cli', 'Jug.C09.shellLoop_spec', 'Jug.C09.shell_eq_spec', 'Jug.C09.shell_in_range', 'Jug.C09.shell_terminates', 'Jug.C09.shell_total', 'Jug.C09.store_after', 'Jug.C09.invalidate_keeps_closed']
+THEOREMS = ['Jug.C09.cli_eq_spec', 'Jug.C09.aff_sound', 'Jug.C09.aff_complete', 'Jug.C09.shell_union_eq_cli', 'Jug.C09.shellLoop_spec', 'Jug.C09.shell_eq_spec', 'Jug.C09.shell_in_range', 'Jug.C09.shell_terminates', 'Jug.C09.shell_total', 'Jug.C09.store_after', 'Jug.C09.invalidate_keeps_closed',
+            'Jug.C09.occursIn_iff', 'Jug.C09.bare_hits_function', 'Jug.C09.bare_needs_component', 'Jug.C09.dotted_iff']
 
 
 def matching(P, target):
@@ -33,6 +35,7 @@ def check(run):
     run.rule = ('generated DAGs (every embedding kind) x every task-function name in them as target x prior store states (fully run, partially run, packed) x backends (file, file+pack, in-memory, redis protocol): '
                 'the real `jug invalidate` command and the interactive-shell invalidate function; removed set compared with the Lean closure model (over the dependencies the code reports) and with the property (every '
                 'task that really reads an invalidated result is gone, nothing outside the reported closure is touched); then a real execute must re-run exactly the removed tasks and restore the sequential values; '
+                'targets also include names of (prefixes of) module components and dotted names: the tasks the real matcher selects are compared with the Lean matcher (Model/Target.lean) and with bounds stated without either; '
                 'non-trivial = the target has dependents and non-dependents with stored results; distinct by (program, target, state, backend)')
     run.assumptions = ['dependencies: lower bound = results a task really reads (cache-free sequential run), upper bound = what Task.dependencies() reports (jug may invalidate conservatively, e.g. a slice of a mapped sequence with all its blocks)',
                        'the shell work list is modelled as coded (shellLoop: reverse-edge table, pop from the end, seen set) and proved totally correct (shell_total); hashes are modelled as task indices (equal-hash duplicates of a task are one task)']
@@ -78,6 +81,12 @@ def check(run):
                     G.put_state(P, be, present, {})
                     hit = matching(P, target)
                     mlow, mup = matching_bounds(P, target)
+                    if drv is not None and variant == 'cli' and re.fullmatch(r'[A-Za-z0-9_.]+', target):
+                        ans = drv.ask({'op': 'match', 'target': target, 'names': P['names']})
+                        run.corr_programs += 1
+                        if ans.get('hits') != hit:
+                            run.corr_disagreements += 1
+                            run.obligation('correspondence target matching model=code', False, 'target %r names %s: model %s code %s' % (target, P['names'], ans.get('hits'), hit))
                     bad = [i for i in range(n) if (mlow[i] and not hit[i]) or (hit[i] and not mup[i])]
                     if bad and variant == 'cli':
                         run.fail('target-matching', 'target %r: %s' % (target, '; '.join('task %s is %s' % (P['names'][i], 'matched although the target is no component of its name' if hit[i] else 'not matched') for i in bad[:3])),
